@@ -515,6 +515,13 @@ def run(prop, replay_file=None):
                     rep.violation("rerun|after-unrelated-session", "the same backtest gives another result after an unrelated session (same symbols, "
                                   "other prices) has run in the same interpreter, both using the session's default data handler; configuration %s"
                                   % es._brief(spec["cfg"]), dict(spec=spec))
+        pair = shared_alpha_digests(spec)
+        if pair is not None:
+            rep.cov["runs_sharing_an_alpha_model_object"] = rep.cov.get("runs_sharing_an_alpha_model_object", 0) + 2
+            if pair[0] != pair[1] or pair[0] != d1:
+                rep.violation("rerun|shared-alpha-model", "two sessions given the same alpha-model object (its forecast passed through both "
+                              "optimisers in between) differ from each other or from a run with fresh objects: %s / %s vs %s; configuration %s" % (
+                                  pair[0][:8], pair[1][:8], d1[:8], es._brief(spec["cfg"])), dict(spec=spec))
         if i % 3 == 2 and not spec.get("wdiv") and spec["cfg"]["market"]:
             two = two_source_digests(spec)
             if two is not None:
@@ -599,6 +606,30 @@ def after_unrelated_session_digest(spec):
     try:
         run_world(dict(spec, cfg=other), 777)
         return digest_outcome(run_world(dict(spec, cfg=c), 12345))[0]
+    except Exception:
+        return None
+
+
+def shared_alpha_digests(spec):
+    """The same backtest twice with ONE FixedSignalsAlphaModel object handed to both sessions, and in between the
+    object's forecast is put through both optimisers the way a hand-assembled PortfolioConstructionModel would
+    (`optimiser(dt, initial_weights=alpha_model(dt))`): sharing strategy objects between runs must not change results."""
+    c = spec["cfg"]
+    if spec["alpha"] != "config" or c["alpha"] != "fixed" or not c["weights"]:
+        return None
+    try:
+        from qstrader.alpha_model.fixed_signals import FixedSignalsAlphaModel
+        from qstrader.portcon.optimiser.equal_weight import EqualWeightPortfolioOptimiser
+        from qstrader.portcon.optimiser.fixed_weight import FixedWeightPortfolioOptimiser
+        div = float(spec.get("wdiv") or 1)
+        shared = FixedSignalsAlphaModel(dict((sr.SYM[a], v / div) for a, v in c["weights"].items()))
+        factory = lambda signals, universe, dh: shared
+        first = digest_outcome(sr.run_real(c, random.Random(12345), alpha_factory=factory))[0]
+        dt = ts(c["start"])
+        FixedWeightPortfolioOptimiser()(dt, initial_weights=shared(dt))
+        EqualWeightPortfolioOptimiser(scale=1.0)(dt, initial_weights=shared(dt))
+        second = digest_outcome(sr.run_real(c, random.Random(12345), alpha_factory=factory))[0]
+        return first, second
     except Exception:
         return None
 
